@@ -1,6 +1,7 @@
 #!/bin/bash
 # run every claimed check's thorough command one after the other; one summary line each
 cd "$(dirname "$0")/.."
+mkdir -p out
 for p in $(python3 -c "import json;print(' '.join(c['property_id'] for c in json.load(open('MANIFEST.json'))['checks']))"); do
   s=$(date +%s); ./check $p --tier thorough > out/thorough-$p.log 2>&1; rc=$?
   echo "$p rc=$rc $(( $(date +%s) - s ))s $(grep -c KNOWN-FINDING out/thorough-$p.log) known $(grep -E 'VIOLATION|INCONCLUSIVE' out/thorough-$p.log | head -1 | cut -c1-200)"
